@@ -112,7 +112,7 @@ def r1_rewrites(rule, root=None):
                     rule.bad("%s|same|shape" % name, "Context::%s: a == b branch not understood (%s)" % (name, e), A.where(fn, i))
         # match (get_const(a), get_const(b)) arms
         for m in A.find(fn["body"], "Match"):
-            t = A.unparse(m["e"]).replace(" ", "")
+            t = A.ftxt(m["e"])
             if t != "(self.get_const(%s),self.get_const(%s))" % (a_n, b_n):
                 continue
             for arm in m["arms"]:
@@ -226,7 +226,7 @@ class FloatCtx:
             if s.get("k") == "Let":
                 n = A.binding_name(s["pat"])
                 init = A.strip(s["init"])
-                t = A.unparse(init).replace(" ", "")
+                t = A.ftxt(init)
                 if ".into_node(self)" in t:
                     continue  # `let a = a.into_node(self)?` keeps the value
                 if "self.get_op(" in t:
@@ -293,7 +293,7 @@ class FloatCtx:
                     if ok:
                         return self.ev(arm["body"], env)
                 return None
-            raise ValueError("match %s" % A.unparse(scr).replace(" ", "")[:30])
+            raise ValueError("match %s" % A.ftxt(scr)[:30])
         raise ValueError("expr %s" % A.unparse(e)[:40])
 
     def cond(self, c, env):
@@ -400,13 +400,13 @@ def r2_namesakes(rule, root=None):
             rule.ok("Context::%s builds BinaryOpcode::%s(%s)" % (name, b, ", ".join(args)), file=CTX, line=fb["ln"])
     # folding goes through the opcode's own eval, operands in order
     fn = cfn("op_unary", root)
-    t = A.unparse(fn["body"]).replace(" ", "")
+    t = A.ftxt(fn["body"])
     if "self.constant(op.eval(a.0))" in t and "self.ops.insert(Op::Unary(op,a))" in t:
         rule.ok("op_unary folds constants with op.eval and otherwise interns Op::Unary(op, a)")
     else:
         rule.bad("op_unary", "op_unary must fold with `op.eval(a.0)` and intern `Op::Unary(op, a)`", A.where(fn))
     fn = cfn("op_binary", root)
-    t = A.unparse(fn["body"]).replace(" ", "")
+    t = A.ftxt(fn["body"])
     if "self.constant(op.eval(a.0,b.0))" in t and "self.ops.insert(Op::Binary(op,a,b))" in t and "if(let(Op::Const(a),Op::Const(b))=(op_a,op_b))" in t.replace("iflet", "if(let").replace("=(op_a,op_b)", "=(op_a,op_b))"):
         rule.ok("op_binary folds constants with op.eval(a, b) and otherwise interns Op::Binary(op, a, b)")
     elif "self.constant(op.eval(a.0,b.0))" in t and "self.ops.insert(Op::Binary(op,a,b))" in t:
@@ -414,7 +414,7 @@ def r2_namesakes(rule, root=None):
     else:
         rule.bad("op_binary", "op_binary must fold with `op.eval(a.0, b.0)` and intern `Op::Binary(op, a, b)` in operand order", A.where(fn))
     fn = cfn("op_binary_commutative", root)
-    t = A.unparse(fn["body"]).replace(" ", "")
+    t = A.ftxt(fn["body"])
     if t == "{self.op_binary(a.min(b),a.max(b),op)}":
         rule.ok("op_binary_commutative orders operands canonically (min, max)")
     else:
@@ -428,7 +428,7 @@ def r2_namesakes(rule, root=None):
         rule.bad("commutative-set", "op_binary_commutative is used for %s; only Add, Mul, Min, Max commute" % sorted(comm), "")
     # every node creation is hash-consed
     d = A.load(CTX, root)
-    ins = [c for c in A.find(d["items"], "MethodCall") if c["method"] in ("insert", "push", "insert_full") and A.unparse(c["recv"]).replace(" ", "") == "self.ops"]
+    ins = [c for c in A.find(d["items"], "MethodCall") if c["method"] in ("insert", "push", "insert_full") and A.ftxt(c["recv"]) == "self.ops"]
     bad = [c for c in ins if c["method"] != "insert"]
     if ins and not bad:
         rule.ok("all %d node creations go through the deduplicating arena insert" % len(ins))
@@ -445,8 +445,8 @@ def _pushes_pops(block, todo="todo", stack="stack"):
         if e is not None and e.get("k") == "MethodCall" and e["method"] == "push" and A.ident(A.strip(e["recv"])) == todo:
             a = A.strip(e["args"][0])
             if a.get("k") == "Call" and (A.path_segs(a["func"]) or [])[-1:] == ["Down"]:
-                downs.append(A.unparse(A.strip(a["args"][0])).replace(" ", "").lstrip("*"))
-        if s.get("k") == "Let" and s.get("init") is not None and A.unparse(s["init"]).replace(" ", "") == "%s.pop().unwrap()" % stack:
+                downs.append(A.ftxt(A.strip(a["args"][0])).lstrip("*"))
+        if s.get("k") == "Let" and s.get("init") is not None and A.ftxt(s["init"]) == "%s.pop().unwrap()" % stack:
             pops.append(A.binding_name(s["pat"]))
     return downs, pops
 
@@ -454,7 +454,7 @@ def _pushes_pops(block, todo="todo", stack="stack"):
 def r3_stack_discipline(rule, root=None):
     for fname, enum in (("import", "TreeOp"), ("export", "Op")):
         fn = cfn(fname, root)
-        ms = [m for m in A.find(fn["body"], "Match") if A.unparse(m["e"]).replace(" ", "") == "t"]
+        ms = [m for m in A.find(fn["body"], "Match") if A.ftxt(m["e"]) == "t"]
         if len(ms) != 1:
             rule.lost("match t { Action::Down .. } in Context::%s" % fname)
             continue
@@ -496,7 +496,7 @@ def r3_stack_discipline(rule, root=None):
             else:
                 arm = (pops.get(v) or pushes.get(v))[1]
                 rule.bad("%s|%s" % (fname, v), "Context::%s %s::%s pushes children %s but pops results as %s: operands would be exchanged" % (fname, enum, v, dn, p), A.where(fn, arm))
-        t = A.unparse(fn["body"]).replace(" ", "")
+        t = A.ftxt(fn["body"])
         if "assert_eq!(stack.len(),1)" in t:
             rule.ok("Context::%s ends with exactly one value on the stack" % fname)
         else:
@@ -524,14 +524,14 @@ def r3_stack_discipline(rule, root=None):
         for b in binary:
             if b not in seen:
                 rule.bad("import|%s|missing" % b, "import has no arm for BinaryOpcode::%s" % b, A.where(fn, ms[0]))
-    t = A.unparse(fn["body"]).replace(" ", "")
+    t = A.ftxt(fn["body"])
     if "letout=self.op_unary(arg,*op).unwrap();" in t:
         rule.ok("import: unary nodes are rebuilt with their own opcode")
     else:
         rule.bad("import|unary", "import must rebuild a unary node with op_unary(arg, *op)", A.where(fn))
     # export rebuilds with the same opcode and operand order
     fn = cfn("export", root)
-    t = A.unparse(fn["body"]).replace(" ", "")
+    t = A.ftxt(fn["body"])
     if "TreeOp::Binary(op,lhs.arc().clone(),rhs.arc().clone())" in t and "TreeOp::Unary(op,arg.arc().clone())" in t:
         rule.ok("export rebuilds Binary(op, lhs, rhs) / Unary(op, arg)")
     else:
@@ -558,7 +558,7 @@ def r6_tree_eq_hash_drop(rule, root=None):
             rule.bad("hash|skip", "Hash for TreeOp skips nodes conditionally (`%s`): the hash must depend only on structure, or equal trees with different sharing hash differently" % A.unparse(n)[:50], A.where(hs, n))
         else:
             rule.ok("hash visits every node unconditionally", file=TREE, line=hs["ln"])
-        t = A.unparse(body).replace(" ", "")
+        t = A.ftxt(body)
         if "std::mem::discriminant(t).hash(state)" in t and "todo.extend(t.iter_children().map(|t|t.as_ref()))" in t:
             rule.ok("hash mixes the variant tag and walks iter_children")
         else:
@@ -573,7 +573,7 @@ def r6_tree_eq_hash_drop(rule, root=None):
     }
     if len(ms) == 1:
         for variant, subs, arm in O.arms_by_variant(ms[0], "TreeOp"):
-            got = A.unparse(arm["body"]).replace(" ", "")
+            got = A.ftxt(arm["body"])
             names = [n for n in A.pat_names(arm["pat"]) if not n.startswith("_")]
             w = want_hash.get(variant, "?")
             # rename the single binding to the expected one
@@ -589,7 +589,7 @@ def r6_tree_eq_hash_drop(rule, root=None):
     else:
         rule.lost("match t in Hash for TreeOp")
     # eq: per variant comparisons
-    ms = [m for m in A.find(eq["body"], "Match") if A.unparse(m["e"]).replace(" ", "") == "(a,b)"]
+    ms = [m for m in A.find(eq["body"], "Match") if A.ftxt(m["e"]) == "(a,b)"]
     if len(ms) != 1:
         rule.lost("match (a, b) in PartialEq for TreeOp")
     else:
@@ -597,7 +597,7 @@ def r6_tree_eq_hash_drop(rule, root=None):
         for arm in ms[0]["arms"]:
             p = arm["pat"]
             if p.get("k") == "PWild":
-                b = A.unparse(arm["body"]).replace(" ", "")
+                b = A.ftxt(arm["body"])
                 if b == "returnfalse":
                     rule.ok("eq: different variants are unequal")
                 else:
@@ -608,7 +608,7 @@ def r6_tree_eq_hash_drop(rule, root=None):
                 segs, _ = A.pat_variant(el)
                 vs.append(segs[-1] if segs else None)
             if len(vs) == 2 and vs[0] == vs[1]:
-                seen[vs[0]] = A.unparse(arm["body"]).replace(" ", "")
+                seen[vs[0]] = A.ftxt(arm["body"])
             else:
                 rule.bad("eq|mixed", "eq arm compares different variants %s" % vs, A.where(eq, arm))
         want_eq = {
@@ -629,7 +629,7 @@ def r6_tree_eq_hash_drop(rule, root=None):
                 rule.ok("eq(TreeOp::%s) compares its payload" % v)
             else:
                 rule.bad("eq|%s" % v, "eq for TreeOp::%s is `%s`" % (v, g[:80]), A.where(eq))
-        t = A.unparse(eq["body"]).replace(" ", "")
+        t = A.ftxt(eq["body"])
         if "todo.extend(a.iter_children().zip(b.iter_children()).map(|(a,b)|(a.as_ref(),b.as_ref())))" in t:
             rule.ok("eq recurses over iter_children pairwise on the heap")
         else:
@@ -657,7 +657,7 @@ def r6_tree_eq_hash_drop(rule, root=None):
                 rule.bad("%s|%s" % (fname, variant), "%s yields %s for TreeOp::%s, which has %d subtree fields" % (fname, somes, variant, n_arc), A.where(fn, arm))
     # Drop: iterative
     dr = _tree_impl_fn("Drop", "drop", root)
-    t = A.unparse(dr["body"]).replace(" ", "")
+    t = A.ftxt(dr["body"])
     need = ["ifself.eligible_for_fast_drop(){return;}", "fortint.iter_children_mut()", "todo.extend(Arc::into_inner(arg))", "std::mem::replace(t,empty.clone())"]
     miss = [n for n in need if n not in t]
     if miss:
@@ -665,13 +665,13 @@ def r6_tree_eq_hash_drop(rule, root=None):
     else:
         rule.ok("Drop dismantles children iteratively", file=TREE, line=dr["ln"])
     f1 = A.find_fn(TREE, "eligible_for_fast_drop", self_ty="TreeOp", root=root)
-    t1 = A.unparse(f1["body"]).replace(" ", "")
+    t1 = A.ftxt(f1["body"])
     if t1 == "{self.iter_children().all(|c|c.does_not_recurse())}":
         rule.ok("the recursive (stack) drop is taken only when every child is a leaf")
     else:
         rule.bad("drop|fast", "eligible_for_fast_drop is `%s`; the stack-recursive drop is only safe when every child is a leaf" % t1, A.where(f1))
     f2 = A.find_fn(TREE, "does_not_recurse", self_ty="TreeOp", root=root)
-    t2 = A.unparse(f2["body"]).replace(" ", "")
+    t2 = A.ftxt(f2["body"])
     if t2 in ("{matches!(self,TreeOp::Const(..) | TreeOp::Input(..))}", "{matches!(self,TreeOp::Const(..)|TreeOp::Input(..))}"):
         rule.ok("leaves are exactly Const and Input")
     else:
